@@ -204,6 +204,8 @@ FUNCS += [
     Fn("cap", "rawvec", "read", file="src/collections/raw_vec.rs", group="RawVec", lean="rv_cap"),
     Fn("alloc_guard", "free", "pure", file="src/collections/raw_vec.rs", group="RawVec"),
     Fn("amortized_new_size", "rawvec", "read", file="src/collections/raw_vec.rs", group="RawVec"),
+    Fn("current_layout", "rawvec", "read", file="src/collections/raw_vec.rs", group="RawVec"),
+    Fn("reserve_internal", "rawvec", "st", file="src/collections/raw_vec.rs", group="RawVec", lean="rv_reserve_internal"),
     Fn("reserve_internal_or_error", "rawvec", "st", file="src/collections/raw_vec.rs", group="RawVec"),
     Fn("reserve_internal_or_panic", "rawvec", "st", file="src/collections/raw_vec.rs", group="RawVec"),
     Fn("fallible_reserve_internal", "rawvec", "st", file="src/collections/raw_vec.rs", group="RawVec"),
@@ -757,6 +759,8 @@ class Tr:
                 return (pa[0][0] if t == "0" else f"({t} + {pa[0][0]})"), SLOT
             if ty in (NAT, CHUNK) and name in ("as_ptr", "as_ref", "as_mut", "get", "as_non_null_ptr") and not args:
                 return t, ty
+            if ty == UNIT and name in ("cast", "into") and not args and self.fn.kind == "rawvec":
+                return t, UNIT      # the buffer's address is not part of the vector model
             if ty == CHUNK and name == "cast" and not args:
                 return f"{paren(t)}.footer", NAT
             if ty == NAT and name == "cast" and not args:
@@ -840,6 +844,8 @@ class Tr:
             if segs[-2:] == ["Layout", "from_size_align"] and len(pa) == 2:
                 return f"(Rs.layoutFromSizeAlign {pa[0][0]} {pa[1][0]})", res(LAYOUT)
             if segs[-2:] == ["EMPTY_CHUNK", "get"] and not pa: return "(emptyChunk E)", CHUNK
+            if segs[-2:] == ["Layout", "from_size_align_unchecked"] and len(pa) == 2:
+                return f"(Rs.Layout.mk {pa[0][0]} {pa[1][0]})", LAYOUT
             if segs[-2:] == ["Layout", "array<T>"] and len(pa) == 1 and self.fn.kind == "rawvec":
                 return f"(RsV.layoutArray c {pa[0][0]})", res(LAYOUT)
             return None
@@ -1010,6 +1016,10 @@ class Tr:
                 if not (isinstance(ty, tuple) and ty[0] in ("opt", "res")):
                     raise Untranslatable(f"`?` on {ty}")
                 env2, v = env_.bind("x", ty[1])
+                if ty[0] == "res" and isinstance(self.ret, tuple) and self.ret[0] == "res2":
+                    # `From<AllocErr> for CollectionAllocErr`
+                    none_ret = self.RET("(Except.error V.RErr.allocErr)", res2("?"), env_)
+                    return f"(match {t} with\n| none => {none_ret}\n| some {v} =>\n{k(v, ty[1], env2)})"
                 none_ret = self.RET("none", ty, env_)
                 return f"(match {t} with\n| none => {none_ret}\n| some {v} =>\n{k(v, ty[1], env2)})"
             return self.E(e[1], env, K(kt))
@@ -1164,6 +1174,16 @@ class Tr:
             self.version = ver
             b = self.E(els, env_, kb) if els is not None else kj("()", UNIT, env_)
             return f"({pre}match {ts} with\n| {lp} =>\n{a}\n| _ =>\n{b})"
+        if scrut[0] == "tuple" and len(scrut[1]) == 2 and pat[0] == "ptuple" and len(pat[1]) == 2 and els is None and not falls(then):
+            # `if let (P, Q) = (a, b) { diverge }`
+            def k1(ta, tya, e1):
+                def k2(tb, tyb, e2):
+                    e3, lp1 = self.pattern(pat[1][0], tya, e2)
+                    e4, lp2 = self.pattern(pat[1][1], tyb, e3)
+                    a = self.E(then, e4, K(lambda t, ty, eb: "unreachable", True))
+                    return f"(match {ta}, {tb} with\n| {lp1}, {lp2} =>\n{a}\n| _, _ =>\n{k('()', UNIT, e2)})"
+                return self.E(scrut[1][1], e1, K(k2))
+            return self.E(scrut[1][0], env, K(k1))
         return self.E(scrut, env, K(ks))
 
     def MATCH(self, e, env, k):
@@ -1266,6 +1286,8 @@ class Tr:
             return self.panic()
         if segs[-1] == "unreachable_unchecked":
             return self.bad("unreachable_unchecked reached")
+        if self.fn.kind == "rawvec" and segs == ["Alloc", "alloc"] and len(args) == 2:
+            return self.E(args[1], env, K(lambda t, ty, env_: k(f"(RsV.arena_serves c {paren(t)}.size)", res(UNIT), env_)))
         if n == "arith_offset" and len(args) == 2 and args[1][0] == "un" and args[1][1] == "-" and args[1][2][0] == "int":
             def kneg(t, ty, env_):
                 if ty != SLOT:
@@ -1699,12 +1721,16 @@ class Tr:
             if not self.st:
                 raise Untranslatable("generator loop in a function translated without state")
             return self.LOOP(env.d[recv[1][1][0]][0], recv[3][0], env, k)
+        if self.fn.kind == "rawvec" and recv == ("field", ("path", ["self"]), "a") and name == "realloc" and len(args) == 3:
+            # the arena serves (or refuses) the request; the buffer's contents move with it (see `RsV.set_cap`)
+            return self.args(args[1:], env, lambda pa, env_: k(f"(RsV.arena_serves c {paren(pa[1][0])})", res(UNIT), env_))
         if recv == ("path", ["self"]) and self.fn.kind == "rawvec":
-            if ("rawvec", name) in FN_BY_KIND:
-                return self.args(args, env, lambda pa, env_: self.call_fn(FN_BY_KIND[("rawvec", name)], None, pa, env_, k))
             if name in EXTERNAL_RV:
+                # callers keep reaching the hand model of this function (its own translation is tied to it by a theorem)
                 lf, mode, rty = EXTERNAL_RV[name]
                 return self.args(args, env, lambda pa, env_: self.bind_call(f"{lf} c {sp(pa)}", mode, k, env_, rty))
+            if ("rawvec", name) in FN_BY_KIND:
+                return self.args(args, env, lambda pa, env_: self.call_fn(FN_BY_KIND[("rawvec", name)], None, pa, env_, k))
         if recv[0] == "path" and len(recv[1]) == 1 and recv[1][0] in env.d and env.d[recv[1][0]][1] == GUARD and ("guard", name) in FN_BY_KIND:
             g = FN_BY_KIND[("guard", name)]
             if g.sig is None:
@@ -1978,6 +2004,12 @@ class Tr:
                             self.chunk_ver[ln] = self.version
                         return f"let {ln} := {t};\n{go(i + 1, e3)}"
                     return self.E(rhs, env_, K(kself))
+                if self.fn.kind == "rawvec" and lhs == ("field", ("path", ["self"]), "ptr") and op == "=":
+                    # the buffer's address is not part of the vector model: only the effects of evaluating the right side count
+                    return self.E(rhs, env_, K(lambda tv, tyv, e3: go(i + 1, e3)))
+                if self.fn.kind == "rawvec" and lhs == ("field", ("path", ["self"]), "cap") and op == "=":
+                    return self.E(rhs, env_, K(lambda tv, tyv, e3: self.bind_call(
+                        f"RsV.set_cap {paren(tv)}", "st", K(lambda t_, ty_, e4: go(i + 1, e4)), e3, UNIT)))
                 if lhs[0] == "field" and lhs[2] == "len" and self.recv_is_vec(lhs[1], env):
                     val = rhs if op == "=" else ("bin", op[:-1], lhs, rhs)
                     return self.E(val, env_, K(lambda tv, tyv, e3: self.bind_call(
@@ -2206,7 +2238,7 @@ def falls(e):
         return falls(e[2]) if e[2] is not None else True
     if e[0] == "unsafe":
         return falls(e[1])
-    if e[0] == "call" and e[1][0] == "path" and e[1][1][-1] in ("allocation_size_overflow", "oom", "capacity_overflow", "unreachable_unchecked"):
+    if e[0] == "call" and e[1][0] == "path" and e[1][1][-1] in ("allocation_size_overflow", "oom", "capacity_overflow", "unreachable_unchecked", "handle_alloc_error"):
         return False
     if e[0] == "macro" and e[1] in ("panic", "unreachable"):
         return False
